@@ -37,6 +37,9 @@ func main() {
 	if v := os.Getenv("SSCHECK_INTER"); v != "" { // development aid: default call-following depth of path queries
 		fmt.Sscanf(v, "%d", &core.DefaultInter)
 	}
+	if os.Getenv("SSCHECK_INSTRSDEEP") != "" {
+		core.InstrsAlwaysDeep = true
+	}
 	if os.Getenv("SSCHECK_DEEPALWAYS") != "" {
 		core.DeepAlways = true
 	}
